@@ -47,6 +47,12 @@ _NAMED = [("pi", math.pi), ("e", math.e)]
 
 
 # ----------------------------------------------------------------------------- layers
+def split_side(name):
+    """'a{+}' -> ('a', '{+}') : the facet-side suffix World.symbol appends to atom names."""
+    k = name.find("{")
+    return (name, "") if k < 0 else (name[:k], name[k:])
+
+
 class Layer:
     """A derivation direction.  derive(desc) -> desc' | None (zero) | ('const', q)."""
 
@@ -72,17 +78,27 @@ class SpatialLayer(Layer):
 
     def derive(self, desc, world):
         name, comp, idx, dirs = desc
-        if name in world.spatial_const:
+        base, sfx = split_side(name)
+        if base in world.spatial_const:
             return None
         if name == "X" or name.startswith("X{"):
             # reference coordinate symbol of the cell model
             if self.kind == "X":
                 return ("const", 1 if comp[0] == self.k else 0)
+            if world.x_via_X is not None:
+                tdim, Kfn = world.x_via_X
+                return ("lin", [(Kfn(world, comp[0], self.k), ("__one__", (), (), ()))])
             raise Unsupported("physical derivative of the reference coordinate symbol")
-        if name in self.seed:
+        if name == "__one__":
+            return None
+        if base in self.seed:
             if dirs:
                 raise Unsupported("second derivative of a seeded operand")
-            return (self.seed[name], tuple(comp) + (self.k,), idx, ())
+            return (self.seed[base] + sfx, tuple(comp) + (self.k,), idx, ())
+        if self.kind == "x" and world.x_via_X is not None:
+            # affine cell: d/dx_k = sum_j K[j,k] d/dX_j  (K constant on the cell)
+            tdim, Kfn = world.x_via_X
+            return ("lin", [(Kfn(world, j, self.k), (name, comp, idx, tuple(sorted(dirs + (("X", j),))))) for j in range(tdim)])
         return (name, comp, idx, tuple(sorted(dirs + ((self.kind, self.k),))))
 
 
@@ -96,8 +112,12 @@ class GateauxLayer(Layer):
 
     def derive(self, desc, world):
         name, comp, idx, dirs = desc
-        if name in self.seed:
-            return (self.seed[name], tuple(comp) + self.vc, idx, dirs)
+        base, sfx = split_side(name)
+        if base in self.seed:
+            s = self.seed[base]
+            if callable(s):
+                return s(desc, world)       # component-wise / linear-combination variations
+            return (s + sfx, tuple(comp) + self.vc, idx, dirs)
         return None
 
 
@@ -117,8 +137,9 @@ class VarLayer(Layer):
 
     def derive(self, desc, world):
         name, comp, idx, dirs = desc
-        if name in self.seed:
-            return (self.seed[name], tuple(comp) + self.cv, idx, dirs)
+        base, sfx = split_side(name)
+        if base in self.seed:
+            return (self.seed[base] + sfx, tuple(comp) + self.cv, idx, dirs)
         return None
 
 
@@ -139,6 +160,7 @@ class World:
         self.opq_hook = None         # callable(world, e, comp, env) -> value | NotImplemented (defines opaque operands)
         self.extra_axioms = []
         self._memos = {}
+        self.x_via_X = None          # (tdim, Kfn(world, j, i)) : physical derivatives expressed through reference ones
 
     # -- bookkeeping
     @property
@@ -186,6 +208,8 @@ class World:
         return s
 
     def base_symbol(self, desc, part=""):
+        if desc[0] == "__one__":
+            return 0 if part == ".im" else 1
         nm = self.symname(desc) + part
         if self.symbolic:
             if nm not in self.syms:
@@ -198,6 +222,12 @@ class World:
             return 0
         if desc[0] == "const":
             return 0 if part == ".im" else self.const(desc[1])
+        if desc[0] == "lin":
+            # linear combination sum_t coef_t * symbol_t ; coefficients are constants w.r.t. all deeper layers
+            tot = 0
+            for coef, d2 in desc[1]:
+                tot = N.add(tot, N.mul(coef, self._build(d2, i, part)))
+            return tot
         if i == len(self.layers):
             return self.base_symbol(desc, part)
         L = self.layers[i]
@@ -293,6 +323,10 @@ def _den(w: World, e, comp, env):
             for nm, val in _NAMED:
                 if v == val:
                     return w.funcs.named_const(nm)
+            if v == 2.0 / math.sqrt(math.pi):
+                return N.div(2, w.funcs.apply("sqrt", w.funcs.named_const("pi")))
+            if v == math.sqrt(math.pi):
+                return w.funcs.apply("sqrt", w.funcs.named_const("pi"))
         return w.const(float_to_fraction(v))
     if isinstance(e, C.Identity):
         return 1 if comp[0] == comp[1] else 0
